@@ -393,6 +393,43 @@ void h_range_get_parameter_value(void)
 		errno == EINVAL, "refusal reported once as usage error");
     free(vpmrp); free(vcp);
 }
+
+/* an unknown parameter whose last solve had no frequencies: its value is unknown, nothing is read */
+void h_get_value_unsolved(void)
+{
+    IN(double, q);
+    vnacal_t *vcp = mk_vcp_min(1);
+    vnacal_parameter_t guess, unk;
+    vnacal_parameter_t *slots[5] = { NULL, NULL, NULL, NULL, NULL };
+    double complex got;
+
+    ASSUME(q == q);
+    (void)memset((void *)&guess, 0, sizeof(guess));
+    guess.vpmr_type = VNACAL_SCALAR;
+    guess.vpmr_hold_count = 2;
+    guess.vpmr_index = 3;
+    guess.vpmr_vcp = vcp;
+    (void)memset((void *)&unk, 0, sizeof(unk));
+    unk.vpmr_type = VNACAL_UNKNOWN;
+    unk.vpmr_hold_count = 1;
+    unk.vpmr_index = 4;
+    unk.vpmr_vcp = vcp;
+    unk.vpmr_other = &guess;
+    unk.vpmr_frequencies = 0;			/* what a solve of a calibration with 0 frequencies leaves */
+    unk.vpmr_frequency_vector = malloc(0);
+    unk.vpmr_gamma_vector = malloc(0);
+    ASSUME(unk.vpmr_frequency_vector != NULL && unk.vpmr_gamma_vector != NULL);
+    slots[3] = &guess; slots[4] = &unk;
+    vcp->vc_parameter_collection.vprmc_allocation = 5;
+    vcp->vc_parameter_collection.vprmc_count = 2;
+    vcp->vc_parameter_collection.vprmc_vector = slots;
+    ghost_err_reset();
+    got = vnacal_get_parameter_value(vcp, 4, q);
+    REACH("value of an unsolved parameter requested");
+    CHECK(creal(got) == HUGE_VAL && ghost_rfi_calls == 0 && ghost_err_calls == 1 &&
+	    ghost_err_category == VNAERR_USAGE, "a parameter solved at no frequency has no value: refused once, nothing interpolated");
+    free(unk.vpmr_frequency_vector); free(unk.vpmr_gamma_vector); free(vcp);
+}
 #endif
 
 #ifdef H_SPLINE
